@@ -481,8 +481,47 @@ def r7(ctx):
            {"path": path_text(bad)} if bad else None)
 
 
+@rule("R-C09-8", min_instances=2, title="a response is judged on its own header fields: read_headers folded on two consecutive responses of one process returns for the second exactly the second's fields (nothing of an earlier response -- Upgrade, Connection, subprotocol -- survives into it)")
+def r8(ctx):
+    idx = ctx.index
+    q = "_http:read_headers"
+    loc = idx.loc(idx.func(q).node)
+    first = [b"HTTP/1.1 101 Switching Protocols\r\n", b"Upgrade: websocket\r\n", b"Connection: Upgrade\r\n", b"Sec-WebSocket-Accept: AAAA\r\n", b"Sec-WebSocket-Protocol: chat\r\n",
+             b"Set-Cookie: a=1\r\n", b"\r\n"]
+    second = [b"HTTP/1.1 101 Switching Protocols\r\n", b"Sec-WebSocket-Accept: BBBB\r\n", b"\r\n"]
+    third = [b"HTTP/1.1 403 Forbidden\r\n", b"Content-Length: 0\r\n", b"\r\n"]
+    for label, seq in (("101 then bare 101", (first, second)), ("101 then 403", (first, third)), ("403 then bare 101", (third, second))):
+        lines = [l for resp in seq for l in resp]
 
-@rule("R-C09-8", min_instances=2, title="a response is judged on its own header fields: nothing read from an earlier response of the process survives into the next one (no shared mapping filled by read_headers, no cache in the validator)")
-def r_sib_r_c09_8(ctx):
-    from .c12 import r9 as no_hidden_sharing
-    no_hidden_sharing(ctx, modules=("_http", "_handshake", "_core", "_socket", "_url"))
+        def rl(I, run, args, kwargs, node, lines=lines):
+            k = len([e for e in run.effects if e.name == "recv_line"])
+            run.effect("recv_line", (), node=node)
+            return C(lines[k])
+
+        I = Interp(idx, Config(stubs={"_socket:recv_line": rl, "_logging:trace": lambda *a: NONE}, loop_unroll=12))
+
+        def body(run):
+            r1 = I.call(run, I.make_fn(run, q), [Sym("sock", "obj")], {}, None)
+            r2 = I.call(run, I.make_fn(run, q), [Sym("sock2", "obj")], {}, None)
+            return Tup((r1, r2))
+
+        outs = ctx.count_paths(I.explore(body))
+        if len(outs) != 1 or outs[0].kind != "return":
+            raise AnalysisError(f"read_headers on constant responses ({label}) does not fold: {[(o.kind, o.exc_class or o.note) for o in outs][:2]}")
+        o = outs[0]
+        got = []
+        for r in o.value.items:
+            h = o.run.cell(r.items[1]) if isinstance(r, Tup) and len(r.items) >= 2 and isinstance(r.items[1], Ref) else None
+            got.append((r.items[0] if isinstance(r, Tup) else r, {k: v.v if isinstance(v, C) else repr(v) for k, v in h.items.items()} if h is not None else None))
+
+        def want_of(resp):
+            hd = {}
+            for l in resp[1:-1]:
+                k, v = l.decode().split(":", 1)
+                hd[k.strip().lower()] = v.strip()
+            return (C(int(resp[0].split()[1])), hd)
+        want = [want_of(seq[0]), want_of(seq[1])]
+        ok = got == want
+        ctx.ob(f"{q}:two-responses:{label}", ok, "each response yields its own status and fields" if ok else
+               f"two responses read one after the other ({label}): the second call returns {got[1]!r}, the response itself carries {want[1]!r} -- fields of the earlier response "
+               f"are handed to the validator as if the later server had sent them", loc)
